@@ -641,7 +641,8 @@ pub fn run_c10(args: &Args) -> Report {
         if rng.chance(1, 3) {
             let s0 = p.sources[0].clone();
             let c = p.file_mut(&s0).unwrap();
-            let mut add = b"//TXTPP#write escaped:\n//-TXTPP#temp README.md\n//-x\n//TXTPP#temp sub_decoy.txt\n~\n".to_vec();
+            // `~` first: the source may end in an open block with the prefix `//`, which these lines would continue
+            let mut add = b"~\n//TXTPP#write escaped:\n//-TXTPP#temp README.md\n//-x\n//TXTPP#temp sub_decoy.txt\n~\n".to_vec();
             if !c.ends_with(b"\n") && !c.is_empty() {
                 add.insert(0, b'\n');
             }
